@@ -176,6 +176,11 @@ impl TypeSpace {
         PRE_CYCLES.with(|c| c.borrow_mut().take())
     }
 
+    /// Ids of all entries, in the order `iter_types()` yields them.
+    pub fn verif_iter_ids(&self) -> Vec<u64> {
+        self.id_to_entry.keys().map(|id| id.0).collect()
+    }
+
     /// Numeric value of a type id.
     pub fn verif_id(id: &TypeId) -> u64 {
         id.0
